@@ -2,9 +2,10 @@
    model SC.C09.Model (a transliteration of src/linear/logistic_regression.rs, src/optimization/
    first_order/lbfgs.rs, src/optimization/line_search.rs, src/math/num.rs), which the correspondence
    check ties to the code on every run. *)
-From Coq Require Import List ZArith Bool Reals Lra Lia.
+From Coq Require Import List ZArith Bool Reals Lra Lia Sorted.
 From Coquelicot Require Import Coquelicot.
-From SC Require Import Base.Num C09.Model C09.ProofsSearch C09.ProofsGrad C09.ProofsGradMulti C09.ProofsStable C09.ProofsConvex C09.ProofsConvexMulti C09.ProofsFit C09.ProofsFitEx C09.ProofsStrict C09.ProofsPredict C09.ProofsExamples.
+From SC Require Import Base.Num C09.Model C09.ProofsSearch C09.ProofsGrad C09.ProofsGradMulti C09.ProofsStable C09.ProofsConvex C09.ProofsConvexMulti C09.ProofsFit C09.ProofsFitEx C09.ProofsStrict C09.ProofsPredict C09.ProofsExamples
+     C09.ProofsCoded C09.ProofsFitCoded C09.ProofsPredictFit C09.ProofsCodedEx C09.ProofsNearOpt C09.ProofsNearOptEx C09.ProofsScores.
 Import ListNotations.
 Local Open Scope R_scope.
 
@@ -263,3 +264,260 @@ Theorem C09_predict_labels_are_class_values :
   (forall row, (predict_index ROps M row < length (lr_classes M))%nat ->
                In (nth (predict_index ROps M row) (lr_classes M) 0) (lr_classes M)).
 Proof. exact predict_labels. Qed.
+
+(* ====================================================================================================
+   The CODED names.  `binary_f`, `binary_df`, `multi_f`, `multi_df` and `lr_fit` are what the correspondence
+   executes: the `_gen` forms instantiated with the code's overflow-safe `ln_1pe`, `sigmoid`, `softmax`.  The
+   theorems above are about the `_gen` forms instantiated with the exact functions; the theorems below say how the
+   two are related, so that every executed definition is reached by a theorem.
+   ==================================================================================================== *)
+
+(* Multinomial: over R the coded objective and gradient ARE the exact ones (as functions: the shift by the row
+   maximum in softmax_mut cancels), so C09_multiclass_* above are statements about `multi_f ROps`, `multi_df ROps`. *)
+Theorem C09_coded_multiclass_objective_is_the_exact_one :
+  multi_f ROps = multi_f_gen ROps softmax_def /\ multi_df ROps = multi_df_gen ROps softmax_def /\
+  (forall l : list R, softmax ROps l = softmax_def l) /\
+  (forall p k x y alpha (w : list R) q, (q < k * S p)%nat ->
+     nth q (multi_df ROps p k x y alpha w) 0 = multi_df_entry ROps softmax_def p k x y alpha w q).
+Proof.
+  split; [exact multi_f_coded_fun|]. split; [exact multi_df_coded_fun|]. split; [exact softmax_coded|].
+  intros p k x y alpha w q Hq. exact (proj2 (proj2 (multi_objective_coded_is_exact p k x y alpha w)) q Hq).
+Qed.
+
+(* Two-class: the coded objective equals the exact one at every point whose linear scores w.x_i + b are <= 15, the
+   coded gradient equals the exact one where they lie in [-40, 40]; at ALL points the coded objective is below the
+   exact one by at most (rows) * e^-15 and gradient entry j is off by at most e^-40 * sum_i |x_ij| (|1| for the
+   bias entry j = p). *)
+Theorem C09_coded_binary_objective_is_the_exact_one_within_the_cutoffs :
+  forall p (x : list (list R)) (y : list nat) (alpha : R) (w : list R),
+  (List.Forall (fun row => score w row <= 15) x ->
+     binary_f ROps p x y alpha w = binary_f_gen ROps lse_exact p x y alpha w) /\
+  (List.Forall (fun row => - 40 <= score w row <= 40) x ->
+     binary_df ROps p x y alpha w = binary_df_gen ROps sig_exact p x y alpha w) /\
+  0 <= binary_f_gen ROps lse_exact p x y alpha w - binary_f ROps p x y alpha w <= INR (length (combine x y)) * exp (- 15) /\
+  (forall j, (j <= p)%nat ->
+     Rabs (nth j (binary_df ROps p x y alpha w) 0 - nth j (binary_df_gen ROps sig_exact p x y alpha w) 0)
+     <= exp (- 40) * lsum (fun ry => Rabs (ecoef p j (fst ry))) (combine x y)).
+Proof.
+  intros p x y alpha w. split; [apply binary_f_coded_in_range|]. split; [apply binary_df_coded_in_range|].
+  split; [apply binary_f_coded_close|]. intros j Hj. unfold binary_df. rewrite !nth_binary_df by exact Hj.
+  apply binary_df_entry_coded_close.
+Qed.
+
+Example C09_coded_binary_within_the_cutoffs_sat :
+  List.Forall (fun row => score ex_w3 row <= 15) ex_x3 /\ List.Forall (fun row => - 40 <= score ex_w3 row <= 40) ex_x3.
+Proof. split; (eapply Forall_impl; [|exact ex_scores_in_range]); cbv beta; intros; lra. Qed.
+
+(* C09_gradient_is_derivative, with the coded names: `multi_df` is the gradient of `multi_f` at every point;
+   `binary_df` is the gradient of `binary_f` at every point whose scores lie in [-40, 15).  (This is what makes
+   'gradient negligible' mean 'near-stationary'.)  Outside that range the two-class statement is not claimed and is
+   false as it stands: for a score above 15 the coded objective has slope exactly 1 in that score (the ln_1pe
+   shortcut) while the coded gradient uses 1/(1+e^-score); the difference is below e^-15 per row.  For the exact
+   forms the statement holds everywhere: C09_binary_df_is_gradient, C09_multiclass_df_is_gradient. *)
+Theorem C09_gradient_is_derivative :
+  (forall p (x : list (list R)) (y : list nat) alpha (w : list R) j,
+     length w = S p -> List.Forall (fun r => length r = p) x -> (j <= p)%nat ->
+     List.Forall (fun row => - 40 <= score w row < 15) x ->
+     is_derive (fun t => binary_f ROps p x y alpha (upd w j t)) (nth j w 0) (nth j (binary_df ROps p x y alpha w) 0)) /\
+  (forall p k (x : list (list R)) (y : list nat) alpha (w : list R) q,
+     length w = (k * S p)%nat -> List.Forall (fun r => length r = p) x -> List.Forall (fun c => (c < k)%nat) y ->
+     (q < k * S p)%nat ->
+     is_derive (fun t => multi_f ROps p k x y alpha (upd w q t)) (nth q w 0) (nth q (multi_df ROps p k x y alpha w) 0)).
+Proof. split; [exact binary_coded_df_is_gradient | exact multi_coded_df_is_gradient]. Qed.
+
+Example C09_gradient_is_derivative_sat :
+  length ex_w3 = 3%nat /\ List.Forall (fun r : list R => length r = 2%nat) ex_x3 /\ (1 <= 2)%nat /\
+  List.Forall (fun row => - 40 <= score ex_w3 row < 15) ex_x3 /\
+  length [1/2; -1/4; 3; 0; 1; 2; -1; -1; 0] = (3 * 3)%nat /\ List.Forall (fun c => (c < 3)%nat) [0%nat; 2%nat; 1%nat].
+Proof. split; [reflexivity|]. split; [repeat constructor|]. split; [lia|]. split; [exact ex_scores_in_range|]. repeat split; repeat constructor. Qed.
+
+(* Tangent inequalities with the coded names: multinomial everywhere; two-class between two points inside the
+   cut-offs, and for all points up to (rows) * e^-15 (with the exact gradient as slope). *)
+Theorem C09_coded_objectives_above_their_tangents :
+  (forall p k (x : list (list R)) (y : list nat) (alpha : R),
+     List.Forall (fun r => length r = p) x -> List.Forall (fun c => (c < k)%nat) y ->
+     forall w s a, length w = (k * S p)%nat -> length s = (k * S p)%nat ->
+     multi_f ROps p k x y alpha w + a * vdot ROps (multi_df ROps p k x y alpha w) s
+     <= multi_f ROps p k x y alpha (vadd ROps w (vscale ROps s a))) /\
+  (forall p (x : list (list R)) (y : list nat) (alpha : R), List.Forall (fun r => length r = p) x ->
+     forall w s a, length w = S p -> length s = S p ->
+     (List.Forall (fun row => - 40 <= score w row <= 15) x ->
+      List.Forall (fun row => score (vadd ROps w (vscale ROps s a)) row <= 15) x ->
+      binary_f ROps p x y alpha w + a * vdot ROps (binary_df ROps p x y alpha w) s
+      <= binary_f ROps p x y alpha (vadd ROps w (vscale ROps s a))) /\
+     binary_f ROps p x y alpha w + a * vdot ROps (binary_df_gen ROps sig_exact p x y alpha w) s
+     <= binary_f ROps p x y alpha (vadd ROps w (vscale ROps s a)) + INR (length (combine x y)) * exp (- 15)).
+Proof.
+  split; [exact multi_coded_tangent|]. intros p x y alpha Hx w s a Hw Hs. split.
+  - apply binary_coded_tangent_in_range; assumption.
+  - apply binary_coded_tangent_approx; assumption.
+Qed.
+
+Example C09_coded_objectives_above_their_tangents_sat :
+  List.Forall (fun r : list R => length r = 2%nat) ex_x3 /\ length ex_w3 = 3%nat /\ length [1; 1; -2] = 3%nat /\
+  List.Forall (fun row => - 40 <= score ex_w3 row <= 15) ex_x3 /\
+  List.Forall (fun row => score (vadd ROps ex_w3 (vscale ROps [1; 1; -2] (1/2))) row <= 15) ex_x3.
+Proof.
+  split; [repeat constructor|]. split; [reflexivity|]. split; [reflexivity|].
+  split; [exact ex_scores_in_range_le | exact ex_scores_after_step].
+Qed.
+
+(* `lr_fit` IS the composition the end-to-end theorem speaks of.  If it returns M on (x, y, alpha):
+   (1) class mapping: classes = the distinct label values in strictly increasing order, exactly the values that
+       occur in y; every label y_i is replaced by the index of its value (classes[yi_i] = y_i, yi_i < k);
+   (2) objective construction: the coded `binary_f`/`binary_df` (k = 2) or `multi_f`/`multi_df` (k >= 3) on x and
+       those indices (`lr_coded_f`, `lr_coded_df`);
+   (3) driver: `optimize` = LBFGS::optimize on that pair from the all-zero vector of dimension p+1 resp. k(p+1);
+   (4) reshaping: M = `lr_reshape` of the returned point (k = 2: one coefficient row = first p entries, intercept =
+       entry p; k >= 3: k blocks of p weights and one intercept), from which the flat vector is recovered
+       (`lr_weights`) whenever it has the right dimension. *)
+Theorem C09_lr_fit_is_composition :
+  forall (L : lb_params (T := R)) (B : bt_params (T := R)) p (x : list (list R)) (y : list R) alpha M,
+  lr_fit ROps L B p x y alpha = Some M ->
+  let classes := unique ROps y in
+  let k := length classes in
+  let yi := lr_class_indices y in
+  (length x = length y /\ (2 <= k)%nat) /\
+  (StronglySorted Rlt classes /\ (forall u, In u classes <-> In u y) /\ length yi = length y /\
+   forall i, (i < length y)%nat -> (nth i yi 0 < k)%nat /\ nth (nth i yi 0%nat) classes 0 = nth i y 0) /\
+  (exists st tr conv,
+     optimize ROps (lr_coded_f p k x yi alpha) (lr_coded_df p k x yi alpha) L B (zeros ROps (lr_dim p k)) = Some (st, tr, conv) /\
+     M = lr_reshape p k classes (st_x st) /\
+     (length (st_x st) = lr_dim p k -> lr_weights M = st_x st)).
+Proof.
+  intros L B p x y alpha M HM. cbv zeta.
+  destruct (lr_fit_is_composition L B p x y alpha M HM) as [Hl [Hk [st [tr [conv [E HMe]]]]]].
+  split; [split; assumption|]. split; [exact (class_mapping y)|]. exists st, tr, conv. split; [exact E|].
+  split; [exact HMe|]. intros Hlen. rewrite HMe. apply lr_weights_reshape. exact Hlen.
+Qed.
+
+(* What the optimiser theorems give for `lr_fit` with the code's own scalar functions: for both variants the
+   recorded trace is an Armijo chain (C09_lbfgs_monotone's `trace_mono`) for the CODED objective and gradient from
+   the value at the all-zero start to the value at the returned weights, so the objective does not increase along
+   any run whose moving steps are non-ascent; for k >= 3 (coded = exact, convex) EVERY returned run is such a run
+   and the objective at the returned weights is <= the one at the start, and `lr_fit` is the very function
+   C09_logistic_fit_never_increases is about.  For k = 2 the unconditional clause is proved for the exact forms
+   only (C09_logistic_fit_never_increases): `ln_1pe` drops by ln(1+e^-15) at 15, the coded objective is not convex
+   there and the convex route does not apply; the defect is bounded by (rows) * e^-15
+   (C09_coded_objectives_above_their_tangents). *)
+Theorem C09_lr_fit_coded_never_increases :
+  forall (L : lb_params (T := R)) (B : bt_params (T := R)) p (x : list (list R)) (y : list R) alpha M,
+  0 <= bt_c1 B -> 0 < bt_plo B -> (0 < lb_m L)%nat ->
+  lr_fit ROps L B p x y alpha = Some M ->
+  let k := length (unique ROps y) in
+  let yi := lr_class_indices y in
+  let n := lr_dim p k in
+  let f := lr_coded_f p k x yi alpha in
+  let df := lr_coded_df p k x yi alpha in
+  (exists st tr conv,
+     optimize ROps f df L B (zeros ROps n) = Some (st, tr, conv) /\
+     lr_weights M = st_x st /\ length (lr_weights M) = n /\
+     trace_mono f df B n (f (zeros ROps n)) tr (f (lr_weights M)) /\
+     (descent_trace tr -> f (lr_weights M) <= f (zeros ROps n)) /\
+     (k <> 2%nat -> bt_c1 B < 1 -> List.Forall (fun r => length r = p) x ->
+        descent_trace tr /\
+        multi_f ROps p k x yi alpha (lr_weights M) <= multi_f ROps p k x yi alpha (zeros ROps (k * S p)))) /\
+  (k <> 2%nat -> lr_fit ROps L B p x y alpha = lr_fit_gen ROps lse_exact sig_exact softmax_def L B p x y alpha).
+Proof.
+  intros L B p x y alpha M Hc0 Hplo Hm HM. cbv zeta. split.
+  - exact (lr_fit_coded_chain L B p x y alpha M Hc0 Hplo Hm HM).
+  - intros Hk. apply lr_fit_multiclass_is_exact. exact Hk.
+Qed.
+
+(* satisfiable: a three-class fit that returns (zero iteration budget: both exits of the optimiser are returns) and a
+   two-class fit that returns (gradient exactly zero at the start), with admissible parameters *)
+Example C09_lr_fit_sat :
+  ((exists M, lr_fit ROps ex_L0 ex_bt 1 [[1]; [2]; [-1]] [0; 1; 2] (1/2) = Some M) /\
+   length (unique ROps [0; 1; 2]) <> 2%nat) /\
+  (exists M, lr_fit ROps (ex_L (1/100000000)) ex_bt 1 [[1]; [1]] [0; 1] 0 = Some M) /\
+  0 <= bt_c1 ex_bt < 1 /\ 0 < bt_plo ex_bt /\ (0 < lb_m ex_L0)%nat /\ (0 < lb_m (ex_L (1/100000000)))%nat /\
+  List.Forall (fun r : list R => length r = 1%nat) [[1]; [2]; [-1]].
+Proof.
+  split; [exact ex_fit3_returns|]. split; [apply ex_fit_coded_returns; lra|].
+  split; [cbn; lra|]. split; [cbn; lra|]. split; [cbn; lia|]. split; [cbn; lia|]. repeat constructor.
+Qed.
+
+(* C09_predict_is_argmax_of_scores: predict on a model RETURNED BY FIT.  The stored classes are the distinct labels
+   of y in increasing order; for every query row the predicted index i is < k, the predicted label classes[i] is
+   one of the ORIGINAL label values of y, and i is: for k = 2 the sign of the single linear score (index 1, the
+   larger label, iff the score is positive); for k >= 3 the FIRST position at which the k linear scores attain
+   their maximum.  `lr_predict` maps exactly this over the query rows.  (The model-level statements for arbitrary
+   lr_model values are C09_predict_is_argmax, C09_predict_labels_are_class_values; here their side conditions are
+   discharged from the shape fit produces.) *)
+Theorem C09_predict_is_argmax_of_scores :
+  forall (L : lb_params (T := R)) (B : bt_params (T := R)) p (x : list (list R)) (y : list R) alpha M,
+  lr_fit ROps L B p x y alpha = Some M ->
+  let classes := unique ROps y in
+  let k := length classes in
+  lr_classes M = classes /\ lr_k M = k /\ (2 <= k)%nat /\
+  StronglySorted Rlt classes /\ (forall u, In u classes <-> In u y) /\
+  (forall row,
+     let i := predict_index ROps M row in
+     (i < k)%nat /\ In (nth i classes 0) y /\
+     (k = 2%nat ->
+        let z := vdot ROps row (nth 0 (lr_coef M) []) + nth 0 (lr_intercept M) 0 in
+        (0 < z /\ i = 1%nat) \/ (z <= 0 /\ i = 0%nat)) /\
+     (k <> 2%nat ->
+        length (lr_scores M row) = k /\
+        (forall j, (j < k)%nat -> nth j (lr_scores M row) 0 <= nth i (lr_scores M row) 0) /\
+        (forall j, (j < i)%nat -> nth j (lr_scores M row) 0 < nth i (lr_scores M row) 0))) /\
+  (forall X, lr_predict ROps M X = map (fun row => nth (predict_index ROps M row) classes 0) X /\
+             List.Forall (fun v => In v y) (lr_predict ROps M X)).
+Proof. exact fit_predict_spec. Qed.
+
+(* What a negligible gradient means (alpha > 0).  Let wopt be a stationary point of the penalised objective (gradient
+   orthogonal to every direction).  For EVERY point w of the right dimension, with d = wopt - w and g = the gradient at
+   w:  the objective at wopt is the minimum,  f(w) - f(wopt) <= -<g, d>,  and  alpha * |weight part of d|^2 <= -<g, d>
+   -- so a point whose gradient is small is close to the optimum in objective value and in its weights (the
+   intercepts are not claimed: flat direction for k >= 3).  Multinomial: with the coded names; two-class: exact forms. *)
+Theorem C09_negligible_gradient_means_near_optimal :
+  (forall p k (x : list (list R)) (y : list nat) alpha,
+     List.Forall (fun r => length r = p) x -> List.Forall (fun c => (c < k)%nat) y -> 0 < alpha ->
+     forall w wopt, length w = (k * S p)%nat -> length wopt = (k * S p)%nat ->
+     (forall s, vdot ROps (multi_df ROps p k x y alpha wopt) s = 0) ->
+     let d := vsub ROps wopt w in
+     let g := multi_df ROps p k x y alpha w in
+     multi_f ROps p k x y alpha wopt <= multi_f ROps p k x y alpha w /\
+     multi_f ROps p k x y alpha w - multi_f ROps p k x y alpha wopt <= - vdot ROps g d /\
+     alpha * psum p k d d <= - vdot ROps g d) /\
+  (forall p (x : list (list R)) (y : list nat) alpha,
+     List.Forall (fun r => length r = p) x -> 0 < alpha ->
+     forall w wopt, length w = S p -> length wopt = S p ->
+     (forall s, vdot ROps (binary_df_gen ROps sig_exact p x y alpha wopt) s = 0) ->
+     let d := vsub ROps wopt w in
+     let g := binary_df_gen ROps sig_exact p x y alpha w in
+     binary_f_gen ROps lse_exact p x y alpha wopt <= binary_f_gen ROps lse_exact p x y alpha w /\
+     binary_f_gen ROps lse_exact p x y alpha w - binary_f_gen ROps lse_exact p x y alpha wopt <= - vdot ROps g d /\
+     alpha * sumsq (firstn p d) <= - vdot ROps g d).
+Proof. split; [exact multi_near_optimum | exact binary_near_optimum]. Qed.
+
+(* satisfiable: penalised objectives (alpha = 1) with an exactly stationary point, three classes and two classes *)
+Example C09_negligible_gradient_means_near_optimal_sat :
+  (forall s, vdot ROps (multi_df ROps 1 3 [[1]; [1]; [1]] [0%nat; 1%nat; 2%nat] 1 (zeros ROps 6)) s = 0) /\
+  (forall s, vdot ROps (binary_df_gen ROps sig_exact 1 [[1]; [1]] [0%nat; 1%nat] 1 (zeros ROps 2)) s = 0) /\
+  List.Forall (fun r : list R => length r = 1%nat) [[1]; [1]; [1]] /\ List.Forall (fun c => (c < 3)%nat) [0%nat; 1%nat; 2%nat] /\
+  0 < 1 /\ length (zeros ROps 6) = (3 * 2)%nat /\ length (zeros ROps 2) = 2%nat.
+Proof.
+  split; [exact ex_multi_stationary|]. split; [exact ex_binary_stationary|].
+  split; [repeat constructor|]. split; [repeat constructor|]. split; [lra|]. split; reflexivity.
+Qed.
+
+(* predict and the objective speak about the same linear model: on a model returned by fit, for every query row with p
+   features, the linear scores predict computes from the stored coefficient rows and intercepts (<row, coef_j> +
+   intercept_j) are the scores the objective uses at the returned flat weight vector (`partial_dot` at offset j(p+1));
+   so the predicted class is the arg-max (k = 2: sign) of the scores of the very model whose penalised likelihood fit
+   minimised. *)
+Theorem C09_predict_scores_are_the_objective_scores :
+  forall (L : lb_params (T := R)) (B : bt_params (T := R)) p (x : list (list R)) (y : list R) alpha M,
+  0 <= bt_c1 B -> 0 < bt_plo B -> (0 < lb_m L)%nat ->
+  lr_fit ROps L B p x y alpha = Some M ->
+  let k := length (unique ROps y) in
+  forall row, length row = p ->
+  (k = 2%nat -> vdot ROps row (nth 0 (lr_coef M) []) + nth 0 (lr_intercept M) 0 = partial_dot ROps (lr_weights M) row 0) /\
+  (k <> 2%nat -> lr_scores M row = scores ROps p k (lr_weights M) row).
+Proof. exact fit_scores_are_objective_scores. Qed.
+
+Example C09_predict_scores_are_the_objective_scores_sat :
+  (exists M, lr_fit ROps ex_L0 ex_bt 1 [[1]; [2]; [-1]] [0; 1; 2] (1/2) = Some M) /\
+  0 <= bt_c1 ex_bt /\ 0 < bt_plo ex_bt /\ (0 < lb_m ex_L0)%nat /\ length [3 : R] = 1%nat.
+Proof. split; [exact (proj1 ex_fit3_returns)|]. split; [cbn; lra|]. split; [cbn; lra|]. split; [cbn; lia | reflexivity]. Qed.
